@@ -4,7 +4,7 @@ use std::io::ErrorKind;
 use std::io::Read;
 
 /// Number of scheduled (symbolic) calls; later calls deliver everything asked.
-pub const SCHED: usize = 4;
+pub const SCHED: usize = 2;
 
 pub struct SchedReader<'a> {
     pub data: &'a [u8],
@@ -18,7 +18,7 @@ pub struct SchedReader<'a> {
 
 impl<'a> SchedReader<'a> {
     /// Arbitrary schedule: each of the first SCHED calls is either an
-    /// interrupted call (at most two in total) or a short read of 1..=3 bytes.
+    /// interrupted call (at most one in total) or a short read of 1..=3 bytes.
     pub fn any(data: &'a [u8]) -> Self {
         let want: [usize; SCHED] = kani::any();
         let eintr: [bool; SCHED] = kani::any();
@@ -31,7 +31,7 @@ impl<'a> SchedReader<'a> {
             }
             i += 1;
         }
-        kani::assume(n <= 2);
+        kani::assume(n <= 1);
         SchedReader { data, pos: 0, want, eintr, calls: 0, eof_reported: false, max_asked: 0 }
     }
 
